@@ -253,6 +253,22 @@ inline void account(const Options& o, Tally& tally, const std::string& text, con
    }
 }
 
+// One case of an enumerated part: saved first (a crash leaves it behind for the driver), and an exception escaping it
+// becomes a finding of its own instead of ending the process.
+template<class Run, class Case>
+inline Outcome run_enumerated(const char* prop, Run run, const Case& c, const Options& o, const std::string& text)
+{
+   put_current(text);
+   try {
+      return run(c, o);
+   }
+   catch (const std::exception& e) {
+      Outcome out;
+      out.fail(std::string(prop) + ":unexpected-exception:" + sanitize(typeid(e).name()), e.what());
+      return out;
+   }
+}
+
 // ------------------------------------------------------------------ drive --
 // Hunt loop: run generated cases; a case fails iff it produces a signature
 // outside the excluded set.  rapidcheck shrinks it (only steps that keep the
